@@ -23,7 +23,7 @@ RULE = (
     "(what every optimiser step does); ModelWrapper cases with identity / channel-permuting inner models on unique ids; three "
     "fixed partial-bank U-Net configurations. Non-trivial: >=2 output types or conventional relayout with k>=1; distinct by configuration."
 )
-RULE += " ModelWrapper is also called on batched inputs and with inner models that change the channel count. Also: a group-averaged variant of every third model, kernel sizes, Climate1D cases (past/future 1..3, every type order)."
+RULE += " Conventional U-Net with batch normalisation (state + the two named batch maps of the training entry points; training and inference mode; mixed flags). ModelWrapper is also called on batched inputs and with inner models that change the channel count. Also: a group-averaged variant of every third model, kernel sizes, Climate1D cases (past/future 1..3, every type order)."
 ASSUMPTIONS = ["type order is checked on eager calls only (under jit JAX sorts dict keys; C12/C13 say order must then not matter)", "reachability computed from the bank's type set (vmon/mlgen.py:type_flow)"]
 ANCHORS = [
     "ginjax.models:UNet.__call__", "ginjax.models:ResNet.__call__", "ginjax.models:DilResNet.__call__", "ginjax.models:ConvBlock.__call__", "ginjax.models:ModelWrapper.__call__",
@@ -53,6 +53,10 @@ def cases(tier, seed):
     # the climate wrapper is a model too: (lon, lat) signature in, requested signature out, for every step count
     for i in range(6 if tier == "quick" else 60):
         out.append({"kind": "climate"})
+    # the conventional U-Net with batch normalisation: only runs with a state and inside the two named batch maps the
+    # training entry points establish ("pmap_batch" outside, "batch" inside); it is a constructor setting like any other
+    for i in range(4 if tier == "quick" else 40):
+        out.append({"kind": "batchnorm"})
     return out
 
 
@@ -72,7 +76,80 @@ def run(case, ctx):
         return run_wrapper(case, ctx)
     if case["kind"] == "climate":
         return run_climate(case, ctx)
+    if case["kind"] == "batchnorm":
+        return run_batchnorm(case, ctx)
     return run_model(case, ctx)
+
+
+def run_batchnorm(case, ctx):
+    """Conventional UNet(use_batch_norm=True): eqx.nn.make_with_state + vmap(axis_name="pmap_batch") of vmap(axis_name="batch"),
+    the calling convention of ml.train_step / ml.evaluate. Types (as a set: jax sorts the blocks behind vmap), channel counts,
+    both leading axes, extents, D and the per-axis flags of the result are compared with the request; training and inference mode."""
+    import contextlib
+    import io
+
+    import equinox as eqx
+    import jax
+    import jax.numpy as jnp
+    import ginjax.geometric as geom
+    import ginjax.models as models
+
+    rng = rng_for(ctx["seed"], ID, case["i"])
+    D = 2 if rng.integers(0, 4) else 3
+    pool = [(0, 0), (0, 1), (1, 0), (1, 1)] + ([(2, 0)] if D == 2 else [])
+    in_sig = [(pool[i], int(rng.integers(1, 3))) for i in rng.choice(len(pool), size=int(rng.integers(1, 4)), replace=False)]
+    out_sig = [(pool[i], int(rng.integers(1, 3))) for i in rng.choice(len(pool), size=int(rng.integers(1, 4)), replace=False)]
+    downs = int(rng.integers(1, 3)) if D == 2 else 1
+    N = tuple(int(v) * 2**downs for v in rng.integers(1, 3, size=D))
+    torus = tuple(bool(v) for v in rng.integers(0, 2, size=D))
+    if case["i"] % 2 == 0 and all(torus):
+        torus = (True,) + (False,) * (D - 1)
+    lead = (int(rng.integers(1, 3)), int(rng.integers(1, 4)))
+    cfg = {"cls": "UNet", "D": D, "equivariant": False, "batch_norm": True, "in_sig": in_sig, "out_sig": out_sig, "depth": int(rng.integers(1, 4)), "num_downsamples": downs,
+           "num_conv": int(rng.integers(1, 3)), "bias": ["auto", True, False][int(rng.integers(3))], "kernel_size": int([3, 3, 1, 5][int(rng.integers(4))]), "N": N, "torus": torus, "lead": lead}
+    viols, evals = [], 0
+    _struct.take()
+    try:
+        with contextlib.redirect_stdout(io.StringIO()):
+            model, state = eqx.nn.make_with_state(models.UNet)(D, mlgen.signature(in_sig), mlgen.signature(out_sig), depth=cfg["depth"], num_downsamples=downs, num_conv=cfg["num_conv"],
+                                                              use_bias=cfg["bias"], equivariant=False, kernel_size=cfg["kernel_size"], use_batch_norm=True, key=jax.random.PRNGKey(case["i"]))
+        x = geom.MultiImage({t: jnp.asarray(rng.normal(size=lead + (c,) + N + (D,) * t[0]).astype(np.float32)) for t, c in in_sig}, D, torus)
+        for mode in ("training", "inference"):
+            m = eqx.nn.inference_mode(model, value=(mode == "inference"))
+            call = jax.vmap(jax.vmap(m, in_axes=(0, None), out_axes=(0, None), axis_name="batch"), in_axes=(0, None), out_axes=(0, None), axis_name="pmap_batch")
+            y, new_state = call(x, state)
+            evals += 1
+            got = sorted((tuple(t), tuple(int(v) for v in y[t].shape)) for t in y.keys())
+            want = sorted((t, lead + (c,) + N + (D,) * t[0]) for t, c in out_sig)
+            if [t for t, _ in got] != [t for t, _ in want]:
+                viols.append(viol("model-output-signature", f"[batch norm, {mode}] UNet returned types {[t for t, _ in got]}, requested {[t for t, _ in want]}; {cfg}"))
+            elif got != want:
+                viols.append(viol("model-output-shape", f"[batch norm, {mode}] block shapes {got}, requested {want}; {cfg}"))
+            if y.D != D or tuple(y.is_torus) != torus:
+                viols.append(viol("model-output-metadata", f"[batch norm, {mode}] D/is_torus {y.D}/{tuple(y.is_torus)} != {D}/{torus}; {cfg}"))
+            if not all(bool(np.all(np.isfinite(np.asarray(v)))) for v in y.values()):
+                viols.append(viol("model-output-nonfinite", f"[batch norm, {mode}] non-finite output; {cfg}"))
+            if mode == "inference" and not viols:
+                # inference mode uses the stored statistics only: an entry's prediction cannot depend on its co-batched entries
+                j = int(rng.integers(lead[1]))
+                xs = geom.MultiImage({t: v[:, j : j + 1] for t, v in x.items()}, D, torus)
+                ys, _ = call(xs, state)
+                evals += 1
+                for t in y.keys():
+                    a, b = np.asarray(y[t])[:, j : j + 1], np.asarray(ys[t])
+                    if a.shape != b.shape or not np.allclose(a, b, rtol=1e-3, atol=1e-3 * max(1.0, float(np.abs(a).max()))):
+                        viols.append(viol("batchnorm-inference-depends-on-batch", f"[batch norm, inference] entry {j} of the batch differs from the same entry alone in block {t}; {cfg}"))
+                        break
+            if viols:
+                break
+    except Exception as e:
+        import traceback
+
+        viols.append(viol(f"model-exception-{type(e).__name__}", f"UNet(use_batch_norm=True) raised {type(e).__name__}: {str(e)[:300]}; {cfg}; {traceback.format_exc()[-500:]}"))
+    viols += _struct.take()[:2]
+    key = {k: (str(v) if k in ("in_sig", "out_sig") else v) for k, v in cfg.items()}
+    return result(key, dedup(viols), len(out_sig) >= 2 or any(t[0] >= 1 for t, _ in out_sig), evals=evals, obs={"model_calls": evals, "batchnorm_calls": evals},
+                  hist={"cls": "UNet+BatchNorm", "D": D, "equivariant": False, "n_out_types": len(out_sig)}, sample={"cfg": key})
 
 
 def run_climate(case, ctx):
